@@ -358,4 +358,154 @@ theorem strrchr_terminator (m : Mem) (s : Nat) (ch : Int) (l : List Byte) (fuel 
     strrchr m s ch fuel = some (some (s + l.length)) := by
   simp [strrchr, hc, strlen_eq m l s fuel h hf]
 
+
+/-! ### strcasecmp / strncasecmp — strcmp/strncmp of the strings mapped through the
+C-locale `tolower` (`lowerB`) -/
+
+theorem strcasecmp_equal (m : Mem) (s1 s2 : Nat) (l1 l2 : List Byte) (fuel : Nat) (h1 : CStr m s1 l1)
+    (h2 : CStr m s2 l2) (he : l1.map lowerB = l2.map lowerB) (hf : l1.length < fuel) :
+    strcasecmp m s1 s2 fuel = some 0 := by
+  have := strcmpLoop_spec tolowerI m l1 l2 0#8 0#8 s1 s2 fuel h1.1 h2.1 (forall2_lower he) h1.2 (Or.inl rfl) hf
+  simpa [strcasecmp] using this
+
+theorem strcasecmp_first_difference (m : Mem) (s1 s2 : Nat) (p1 p2 : List Byte) (x y : Byte) (fuel : Nat)
+    (h1 : Holds m s1 (p1 ++ [x])) (h2 : Holds m s2 (p2 ++ [y])) (he : p1.map lowerB = p2.map lowerB)
+    (h0 : 0#8 ∉ p1) (hxy : lowerB x ≠ lowerB y) (hf : p1.length < fuel) :
+    strcasecmp m s1 s2 fuel = some (ucInt (lowerB x) - ucInt (lowerB y)) := by
+  have := strcmpLoop_spec tolowerI m p1 p2 x y s1 s2 fuel h1 h2 (forall2_lower he) h0
+    (Or.inr (fun e => hxy (eqF_lower.mp e))) hf
+  simpa [strcasecmp, tolowerI_ucInt] using this
+
+theorem strncasecmp_zero (m : Mem) (s1 s2 : Nat) : strncasecmp m s1 s2 0 = some 0 := rfl
+
+/-- the first `n` characters agree up to case ⇒ 0; nothing after them is read -/
+theorem strncasecmp_equal_prefix (m : Mem) (s1 s2 : Nat) (p1 p2 : List Byte) (x y : Byte)
+    (h1 : Holds m s1 (p1 ++ [x])) (h2 : Holds m s2 (p2 ++ [y])) (he : p1.map lowerB = p2.map lowerB)
+    (hxy : lowerB x = lowerB y) (h0 : 0#8 ∉ p1) :
+    strncasecmp m s1 s2 (p1.length + 1) = some 0 := by
+  have := strncmpLoop_spec tolowerI m p1 p2 x y s1 s2 p1.length h1 h2 (forall2_lower he) h0 (Or.inl rfl)
+    (Nat.le_refl _)
+  simpa [strncasecmp, tolowerI_ucInt, hxy] using this
+
+theorem strncasecmp_first_difference (m : Mem) (s1 s2 : Nat) (p1 p2 : List Byte) (x y : Byte) (n : Nat)
+    (h1 : Holds m s1 (p1 ++ [x])) (h2 : Holds m s2 (p2 ++ [y])) (he : p1.map lowerB = p2.map lowerB)
+    (h0 : 0#8 ∉ p1) (hxy : lowerB x ≠ lowerB y) (hn : p1.length < n) :
+    strncasecmp m s1 s2 n = some (ucInt (lowerB x) - ucInt (lowerB y)) := by
+  have := strncmpLoop_spec tolowerI m p1 p2 x y s1 s2 (n - 1) h1 h2 (forall2_lower he) h0
+    (Or.inr (Or.inr (fun e => hxy (eqF_lower.mp e)))) (by omega)
+  simpa [strncasecmp, tolowerI_ucInt, Nat.pos_iff_ne_zero.mp (Nat.zero_lt_of_lt hn)] using this
+
+/-- equal up to case, both terminated ⇒ 0 for every `n` that reaches the terminator -/
+theorem strncasecmp_equal (m : Mem) (s1 s2 : Nat) (l1 l2 : List Byte) (n : Nat) (h1 : CStr m s1 l1)
+    (h2 : CStr m s2 l2) (he : l1.map lowerB = l2.map lowerB) (hn : l1.length < n) :
+    strncasecmp m s1 s2 n = some 0 := by
+  have := strncmpLoop_spec tolowerI m l1 l2 0#8 0#8 s1 s2 (n - 1) h1.1 h2.1 (forall2_lower he) h1.2
+    (Or.inr (Or.inl rfl)) (by omega)
+  simpa [strncasecmp, Nat.pos_iff_ne_zero.mp (Nat.zero_lt_of_lt hn)] using this
+
+/-! ### strlwr / strupr — in place, ASCII letters only, bytes ≥ 0x80 untouched -/
+
+theorem strlwr_spec (m : Mem) (s : Nat) (l : List Byte) (fuel : Nat) (h : CStr m s l) (hf : l.length < fuel) :
+    ∃ m', strlwr m s fuel = some (m', s) ∧ Holds m' s (l.map lowerB ++ [0#8]) ∧
+      SameOutside m m' s l.length := by
+  obtain ⟨m', e, hh, ho⟩ := caseLoop_spec 65 90 32 lowerB lowerB_eq l m s fuel h hf
+  exact ⟨m', by unfold strlwr; rw [e]; rfl, hh, ho⟩
+
+theorem strupr_spec (m : Mem) (s : Nat) (l : List Byte) (fuel : Nat) (h : CStr m s l) (hf : l.length < fuel) :
+    ∃ m', strupr m s fuel = some (m', s) ∧ Holds m' s (l.map upperB ++ [0#8]) ∧
+      SameOutside m m' s l.length := by
+  obtain ⟨m', e, hh, ho⟩ := caseLoop_spec 97 122 (-32) upperB upperB_eq l m s fuel h hf
+  exact ⟨m', by unfold strupr; rw [e]; rfl, hh, ho⟩
+
+/-! ### strcat -/
+
+/-- strcat appends `b` and a terminator after `a`; only `[dest+|a|, dest+|a|+|b|]` is written -/
+theorem strcat_spec (m : Mem) (dest src : Nat) (a b : List Byte) (fuel : Nat) (hdest : 0 < dest)
+    (ha : CStr m dest a) (hb : CStr m src b) (hd : Mapped m (dest + a.length) (b.length + 1))
+    (hdis : Disjoint dest (a.length + b.length + 1) src (b.length + 1))
+    (hf : a.length + b.length < fuel) :
+    ∃ m', strcat m dest src fuel = some (m', dest) ∧ Holds m' dest (a ++ b ++ [0#8]) ∧
+      SameOutside m m' (dest + a.length) (b.length + 1) := by
+  have e1 := scanNul_spec m a dest fuel ha (by omega)
+  have ew : dest + a.length + 1 - 2 + 1 = dest + a.length := by omega
+  unfold Disjoint at hdis
+  obtain ⟨m', e, hh, ho⟩ := strcatCopy_spec b m (dest + a.length + 1 - 2) src fuel hb
+    (by rw [ew]; exact hd) (by rw [ew]; unfold Disjoint; omega) (by omega)
+  rw [ew] at hh ho
+  refine ⟨m', by unfold strcat; rw [e1]; simp only [bind, Option.bind]; rw [e]; rfl, ?_, ho⟩
+  rw [List.append_assoc, holds_append]
+  exact ⟨holds_of_sameOutside (cstr_prefix_holds (r := []) (by simpa using ha)).1 ho (by omega), hh⟩
+
+/-! ### strdup / strndup — `malloc` is a parameter; what is assumed of it: on
+success the block `[ret, ret+size)` is mapped, does not overlap the argument
+string, and the rest of the memory is as before -/
+
+theorem strdup_spec (malloc : Alloc) (m m1 : Mem) (s ret : Nat) (l : List Byte) (fuel : Nat)
+    (h : CStr m s l) (hal : malloc m (l.length + 1) = some (m1, ret)) (hok : AllocOk m m1 ret (l.length + 1))
+    (hdis : Disjoint ret (l.length + 1) s (l.length + 1)) (hf : l.length < fuel) :
+    ∃ m', strdup malloc m s fuel = some (m', some ret) ∧ Holds m' ret (l ++ [0#8]) ∧
+      SameOutside m1 m' ret (l.length + 1) := by
+  have e1 := strlen_eq m l s fuel h hf
+  unfold Disjoint at hdis
+  have h1 : CStr m1 s l := cstr_of_sameOutside h hok.2 (by omega)
+  obtain ⟨m', e, hh, ho⟩ := strcpyLoop_spec l m1 ret s fuel h1 hok.1 (by unfold Disjoint; omega) hf
+  exact ⟨m', by simp [strdup, e1, hal, strcpy, e], hh, ho⟩
+
+/-- allocation failure ⇒ NULL, memory untouched -/
+theorem strdup_nomem (malloc : Alloc) (m : Mem) (s : Nat) (l : List Byte) (fuel : Nat)
+    (h : CStr m s l) (hal : malloc m (l.length + 1) = none) (hf : l.length < fuel) :
+    strdup malloc m s fuel = some (m, none) := by
+  simp [strdup, strlen_eq m l s fuel h hf, hal]
+
+/-- strndup of an array of `size` non-NUL characters WITHOUT terminator: reads
+exactly those (`fix: strndup does not read past size bytes`), result `p ++ [0]` -/
+theorem strndup_array (malloc : Alloc) (m m1 : Mem) (s ret : Nat) (p : List Byte)
+    (h : Holds m s p) (h0 : 0#8 ∉ p) (hal : malloc m (p.length + 1) = some (m1, ret))
+    (hok : AllocOk m m1 ret (p.length + 1)) (hdis : Disjoint ret (p.length + 1) s p.length) :
+    ∃ m', strndup malloc m s p.length = some (m', some ret) ∧ Holds m' ret (p ++ [0#8]) ∧
+      SameOutside m1 m' ret (p.length + 1) := by
+  have e1 : strnlen m s p.length = some p.length := by
+    simpa [strnlen] using strnlenLoop_long m p s p.length 0 h h0 (Nat.le_refl _)
+  unfold Disjoint at hdis
+  have h1 : Holds m1 s p := holds_of_sameOutside h hok.2 (by omega)
+  obtain ⟨m2, e2, hc⟩ := memcpy_fwd m1 ret s p.length (by omega) h1.mapped (fun i hi => hok.1 i (by omega))
+  have hmap : (m2 (ret + p.length)).isSome := by
+    rw [hc.done.2 _ (by omega)]; exact hok.1 _ (by omega)
+  refine ⟨upd m2 (ret + p.length) 0#8, ?_, ?_, ?_⟩
+  · simp only [strndup, e1, bind, Option.bind, hal, e2, BitVec.ofNat_eq_ofNat, wr_upd hmap]
+    rfl
+  · rw [holds_append]
+    exact ⟨holds_upd_outside _ (hc.done.holds h1) (by omega), by simp [holds_cons, Holds.nil]⟩
+  · intro j hj; rw [upd_other _ _ (by omega)]; exact hc.done.2 j (by omega)
+
+/-- strndup of a string: the first `min(len, size)` characters and a terminator -/
+theorem strndup_string (malloc : Alloc) (m m1 : Mem) (s ret : Nat) (l : List Byte) (size : Nat)
+    (h : CStr m s l) (hal : malloc m (min l.length size + 1) = some (m1, ret))
+    (hok : AllocOk m m1 ret (min l.length size + 1))
+    (hdis : Disjoint ret (min l.length size + 1) s (l.length + 1)) :
+    ∃ m', strndup malloc m s size = some (m', some ret) ∧ Holds m' ret (l.take size ++ [0#8]) ∧
+      SameOutside m1 m' ret (min l.length size + 1) := by
+  have e1 : strnlen m s size = some (min l.length size) := by
+    simpa [strnlen] using strnlenLoop_cstr m l s size 0 h
+  unfold Disjoint at hdis
+  have hp := cstr_prefix_holds (p := l.take size) (r := l.drop size) (by simpa using h)
+  have hlen : (l.take size).length = min l.length size := by simp [Nat.min_comm]
+  have h1 : Holds m1 s (l.take size) := holds_of_sameOutside hp.1 hok.2 (by omega)
+  obtain ⟨m2, e2, hc⟩ := memcpy_fwd m1 ret s (min l.length size) (by omega)
+    (by rw [← hlen]; exact h1.mapped) (fun i hi => hok.1 i (by omega))
+  have hmap : (m2 (ret + min l.length size)).isSome := by
+    rw [hc.done.2 _ (by omega)]; exact hok.1 _ (by omega)
+  refine ⟨upd m2 (ret + min l.length size) 0#8, ?_, ?_, ?_⟩
+  · simp only [strndup, e1, bind, Option.bind, hal, e2, BitVec.ofNat_eq_ofNat, wr_upd hmap]
+    rfl
+  · rw [holds_append, hlen]
+    refine ⟨holds_upd_outside _ ?_ (by omega), by simp [holds_cons, Holds.nil]⟩
+    have := hc.done; rw [← hlen] at this; exact this.holds h1
+  · intro j hj; rw [upd_other _ _ (by omega)]; exact hc.done.2 j (by omega)
+
+/-- historical (before the fix): strndup of a 1-byte array without terminator read past it -/
+theorem strndupOrig_witness :
+    strndupOrig (fun m _ => some (m, 64)) (ofBufs [(8, [0x7a#8]), (64, [0#8, 0#8])]) 8 1 10 = none := by
+  decide
+
 end Igris.C08
